@@ -59,6 +59,45 @@ func checkC12(r *core.Run) {
 	c12Admit(r, p)
 	c12Closure(r, p)
 	c12PkgCache(r, p)
+	// a transaction is unlinked from the pool (its inputs released, its map entry removed) before the fee
+	// packages are updated: the package update rebuilds membership by walking the spent-outputs map, and would
+	// put the transaction that is being deleted back into its package
+	if del := p.Func("client/txpool.(*OneTxToSend).Delete"); del == nil {
+		r.Fail("R-C12-owner", "delete/unlink-before-packages", "-", "Delete not found")
+	} else {
+		c19Order(r, p, "R-C12-owner", "delete/unlink-before-packages", del, []c19Ev{
+			evCall("remove the pool entry", "builtin.delete", 0, "global:client/txpool.TransactionsToSend"),
+			evCall("update the fee packages", "(*client/txpool.OneTxToSend).delFromPackages", -1),
+		})
+		// the inputs are released in a loop (possibly empty): none of its steps may come after the package update
+		late := ""
+		for _, pc := range an.CallsTo(del, false, "(*client/txpool.OneTxToSend).delFromPackages") {
+			seen := map[*ssa.BasicBlock]bool{}
+			var walk func(b *ssa.BasicBlock)
+			walk = func(b *ssa.BasicBlock) {
+				for _, sc := range b.Succs {
+					if seen[sc] {
+						continue
+					}
+					seen[sc] = true
+					for _, ins := range sc.Instrs {
+						if c, ok := ins.(*ssa.Call); ok && an.CallName(c) == "builtin.delete" && an.Atoms(c.Call.Args[0])["global:client/txpool.SpentOutputs"] {
+							late = p.Pos(c.Pos())
+						}
+					}
+					walk(sc)
+				}
+			}
+			walk(pc.(ssa.Instruction).Block())
+		}
+		nrel := 0
+		for _, c := range an.CallsTo(del, false, "builtin.delete") {
+			if an.Atoms(c.Common().Args[0])["global:client/txpool.SpentOutputs"] {
+				nrel++
+			}
+		}
+		r.Check(late == "" && nrel >= 1, "R-C12-owner", "delete/inputs-released-before-packages", p.Pos(del.Pos()), "the inputs are released before the fee packages are updated", "inputs are released from the spent-outputs map at "+late+", after the fee packages were updated (the update walks that map and re-adds the transaction being deleted)")
+	}
 }
 
 // c12PkgCache: the fee packages are a cache over the pool. While no listing was requested for a while the
